@@ -13,6 +13,10 @@ import (
 	"encoding/base64"
 	"encoding/json"
 	"fmt"
+	"runtime"
+	"runtime/debug"
+	"strings"
+	"syscall"
 
 	"github.com/brocaar/lorawan"
 	"verifharness/internal/cases"
@@ -68,11 +72,58 @@ func (h *H) probe(entry string, wire []byte, val interface{}, dec func(in []byte
 		full[i] ^= 0xff
 	}
 	after := deep(val)
+	defer h.roRun(entry, wire, func(in []byte) { _ = dec(in) }) // last: val may point into the page afterwards and is not used again
 	if before != after {
 		h.s.Fail(cases.GoFail{Key: fmt.Sprintf("decoder-aliases-input:%s:%x", entry, wire),
 			What:   fmt.Sprintf("the value decoded by %s changes when the caller overwrites the buffer it was decoded from: %s then %s", entry, clip(before), clip(after)),
 			Replay: map[string]interface{}{"api": entry + "(in); invert every byte of in; inspect the value", "in": hexs(wire), "before": clip(before), "after": clip(after)}})
 	}
+}
+
+// roCopy returns a copy of in inside a page the process may only read (nil when that is not possible).
+func roCopy(in []byte) (buf []byte, release func()) {
+	if len(in) == 0 {
+		return nil, nil
+	}
+	n := (len(in) + 4095) &^ 4095
+	mem, err := syscall.Mmap(-1, 0, n, syscall.PROT_READ|syscall.PROT_WRITE, syscall.MAP_ANON|syscall.MAP_PRIVATE)
+	if err != nil {
+		return nil, nil
+	}
+	copy(mem, in)
+	if err := syscall.Mprotect(mem, syscall.PROT_READ); err != nil {
+		_ = syscall.Munmap(mem)
+		return nil, nil
+	}
+	return mem[:len(in):len(in)], func() { _ = syscall.Munmap(mem) }
+}
+
+// roRun runs a decoder on an input that lives in a read-only page: a write to the input - also one that is
+// undone before the call returns, which no before/after comparison can see and which races with every other
+// reader of the same bytes - faults, and with SetPanicOnFault the fault arrives here as a runtime.Error.
+func (h *H) roRun(entry string, wire []byte, f func(in []byte)) {
+	ro, release := roCopy(wire)
+	if ro == nil {
+		return
+	}
+	h.roProbes++
+	old := debug.SetPanicOnFault(true)
+	defer debug.SetPanicOnFault(old)
+	defer release()
+	defer func() {
+		if r := recover(); r != nil {
+			e, isErr := r.(runtime.Error)
+			_, hasAddr := r.(interface{ Addr() uintptr })
+			if isErr && (hasAddr || strings.Contains(e.Error(), "fault")) {
+				h.s.Fail(cases.GoFail{Key: fmt.Sprintf("decoder-writes-input:%s:%x", entry, wire),
+					What:   fmt.Sprintf("%s writes to its input buffer (fault on a read-only page; the bytes may be restored before it returns, other readers of the buffer still see the write): %v", entry, e),
+					Replay: map[string]interface{}{"api": entry, "in": hexs(wire), "how": "input placed in a PROT_READ page, debug.SetPanicOnFault(true)"}})
+			}
+		}
+	}()
+	cases.Begin(fmt.Sprintf("%s(%x) [read-only input]", entry, wire), map[string]interface{}{"api": entry, "in": hexs(wire)})
+	defer cases.End()
+	f(ro)
 }
 
 // macWire: a MACPayload wire with every optional part present when asked for.
@@ -209,6 +260,31 @@ func (h *H) probes(mult int) {
 			pc := pc
 			h.probe("MACCommand.UnmarshalBinary", append([]byte{pc.cid}, r.Bytes(pc.size)...), &mc, func(in []byte) error { return mc.UnmarshalBinary(pc.up, in) })
 		}
+		for _, up := range []bool{false, true} {
+			var stream []byte
+			for _, b := range macfmt.Builtin {
+				if b.Up == up {
+					stream = append(append(stream, byte(b.CID)), r.Bytes(macfmt.Kinds[macfmt.KindIndex(b.Kind)].Size)...)
+				}
+			}
+			up := up
+			// the bytes a frame holds may be shared with other frames / goroutines: the stream decoders only read them
+			h.roRun("PHYPayload.DecodeFRMPayloadToMACCommands", stream, func(in []byte) {
+				f := newDataFrame(r, up, nil, 0, []lorawan.Payload{&lorawan.DataPayload{Bytes: in}})
+				_ = f.DecodeFRMPayloadToMACCommands()
+			})
+			for _, b := range macfmt.Builtin {
+				if b.Up != up {
+					continue
+				}
+				one := append([]byte{byte(b.CID)}, r.Bytes(macfmt.Kinds[macfmt.KindIndex(b.Kind)].Size)...)
+				one = append(one, byte(lorawan.LinkCheckReq)) // a second, payload-less command behind it
+				h.roRun("PHYPayload.DecodeFOptsToMACCommands", one, func(in []byte) {
+					f := newDataFrame(r, up, []lorawan.Payload{&lorawan.DataPayload{Bytes: in}}, -1, nil)
+					_ = f.DecodeFOptsToMACCommands()
+				})
+			}
+		}
 		var pp lorawan.ProprietaryMACCommandPayload
 		h.probe("ProprietaryMACCommandPayload.UnmarshalBinary", r.Bytes(1+r.Intn(10)), &pp, pp.UnmarshalBinary)
 		var chm lorawan.ChMask
@@ -266,6 +342,7 @@ func (h *H) probes(mult int) {
 			}
 		}
 	}
+	h.s.Extra["read_only_input_probes"] = h.roProbes
 	h.s.Extra["aliasing_probes"] = h.nprobes
 	h.s.Extra["aliasing_probes_decoded_ok"] = h.nprobesOK
 }
